@@ -18,7 +18,7 @@ ATTR_CHARS = "!#$&+-.^_`|~0123456789abcdefghijklmnopqrstuvwxyzABCDEFGHIJKLMNOPQR
 class Part:
     """One form field.
 
-    name      str (no '"', '\\', CR, LF: their encoding differs between real encoders)
+    name      str (no CR/LF; '"' and '\\' are written as RFC 7230 quoted-pairs; a value never ENDS in a backslash)
     filename  None | str            plain filename="..." parameter
     ext       None | (charset, language, str)   RFC 5987 filename*=charset'lang'pct-encoded
     ctype     None | str            Content-Type header value (None -> header omitted)
@@ -54,8 +54,9 @@ def unb(x):
 def _param(key, value, token_form):
     if token_form and value and all(c in TOKEN for c in value):
         return '%s=%s' % (key, value)
-    assert '"' not in value and '\\' not in value and '\r' not in value and '\n' not in value
-    return '%s="%s"' % (key, value)
+    # quoted-string with quoted-pair escapes (RFC 7230 3.2.6; the style Go, older curl and urllib3 write)
+    assert '\r' not in value and '\n' not in value and not value.endswith('\\')
+    return '%s="%s"' % (key, value.replace('\\', '\\\\').replace('"', '\\"'))
 
 
 def ext_value(charset, lang, text):
